@@ -57,6 +57,8 @@ def run_case(cs):
     patterns = rng.sample(PATS, rng.choice([0, 0, 1, 2]))
     pat_at = rng.randint(1, 2)
     gens = rng.randint(1, 5)
+    if nested and child_first and rng.random() < 0.25:
+        gens = 0  # only the nested histories exist; the enclosing folder is sealed for the first time after the mutation
     steps = []
 
     def ignored(rel):
@@ -183,7 +185,17 @@ def run_case(cs):
                     muts.append(f"add-ignored {rel!r}")
     classes = sorted(k for k, v in affected.items() if v)
     # a removed directory takes no recorded file with it (only empty ones are removed)
+    if gens == 0:
+        # files outside the nested histories were never recorded: faults there are not faults
+        inside = lambda p: any(p == n or p.startswith(n + "/") for n in nested)
+        for c in ("altered", "removed"):
+            affected[c] = [p for p in affected[c] if inside(p) and p not in nested]
+        affected["added"] = []
+        classes = sorted(k for k, v in affected.items() if v)
+        cs.count("root_never_sealed_cases")
     for cmd in ("verify", "diff", "create"):
+        if gens == 0 and cmd != "create":
+            continue  # verify / diff answer 30 (no history at the root yet)
         work = os.path.join(d, "copy-" + cmd)
         shutil.copytree(root, work, symlinks=True)
         if cmd == "create":
